@@ -504,4 +504,8 @@ func runC16(r *Run) {
 	r.rule("R7", "function-valued Config fields the middleware calls are never nil (E1): set by configDefault on every path, also when no config is passed", func() {
 		configFuncFieldsRule(r, csrfPkg, "csrf")
 	})
+
+	r.rule("R8", "trusted wildcard origins keep the label boundary: the wildcard's position is applied to the string it was found in (E5, shared with C19-R5)", func() {
+		wildcardOffsetsOnTheirString(r, r.Fn(csrfPkg, "New"), "New:wildcard-position-on-the-same-string")
+	})
 }
